@@ -20,7 +20,7 @@ RULE = ("one evaluation = one seeded interleaving (<= 50 operations) of per-leve
         "parent restricted to the parent's selection and the manual-exclusion invariant is checked against the model's "
         "per-child sets of excluded root events. non-trivial = >=1 edit and >=1 comparison; distinct = distinct event-log digests")
 STATE_MEASURE = "distinct (depth, bitmask of levels edited since last refresh, hidden-exclusion count>0, cache-populated bitmask) tuples; actor sequences are part of the digest"
-PROBES = ["level_filter_reset", "same_exclusion_reentered", "nonscalar_index_array_access", "index_array_refused_like_parent", "hidden_exclusion_came_back", "hidden_exclusion_present", "cache_populated_before_refresh", "temp_feature_on_child",
+PROBES = ["temporary_feature_initialised_from_other_dataset", "other_hierarchy_with_other_traces_before", "level_filter_reset", "same_exclusion_reentered", "nonscalar_index_array_access", "index_array_refused_like_parent", "hidden_exclusion_came_back", "hidden_exclusion_present", "cache_populated_before_refresh", "temp_feature_on_child",
           "temp_feature_on_root", "root_config_changed", "depth_3_or_more", "manual_on_mid_level", "ancestor_filter_changed_after_manual",
           "child_created_mid_history", "root_apply_without_refresh", "empty_child", "file_backed", "root_selection_moved_same_count"]
 COMPONENTS = {"real": ["dclab RTDC_Hierarchy, HierarchyFilter, index mappers, Child* feature wrappers", "dclab Filter, temporary features, ancillary features (time, area_um, deform)"],
@@ -75,6 +75,18 @@ class World:
         self.n = k["n"]
         self.data = make_root_data(ctx.seed, self.n, k["nonscalar"])
         dclab.register_temporary_feature("tmp_c04")
+        if k["nonscalar"] and seeds.H(ctx.seed, "other-hierarchy") % 3 == 0:
+            # another measurement with other fluorescence traces was gated in this session before
+            rs0 = seeds.np_rng(ctx.seed, "other-hierarchy")
+            other = dclab.new_dataset({"deform": rs0.uniform(0.01, 0.2, size=6), "area_um": rs0.uniform(20, 200, size=6),
+                                       "trace": {"fl3_raw": rs0.integers(-100, 100, size=(6, 9)).astype(np.int16)}})
+            other.filter.manual[0] = False
+            other.apply_filter()
+            och = dclab.new_dataset(other)
+            och.apply_filter()
+            np.asarray(och["trace"]["fl3_raw"][:])
+            self.other_hierarchy = (other, och)
+            ctx.probe("other_hierarchy_with_other_traces_before")
         if k["backing"] == "file":
             from dclab.rtdc_dataset.writer import RTDCWriter
             p = ctx.scratch / "root.rtdc"
@@ -89,6 +101,17 @@ class World:
             root = dclab.new_dataset({f: (v.copy() if isinstance(v, np.ndarray) else v) for f, v in self.data.items()})
             root.config["imaging"]["pixel size"] = 0.34
             root.config["imaging"]["frame rate"] = 2000.0
+        self.twin = None
+        if k["backing"] != "file" and seeds.H(ctx.seed, "twin-temp") % 3 == 0:
+            # another measurement of the same length; this root's temporary feature is initialised from the other one's
+            rs1 = seeds.np_rng(ctx.seed, "twin-temp")
+            twin = dclab.new_dataset({"deform": rs1.uniform(0.01, 0.2, size=self.n), "area_um": rs1.uniform(20, 200, size=self.n)})
+            arr = rs1.uniform(0, 1, size=self.n)
+            dclab.set_temporary_feature(twin, "tmp_c04", arr)
+            dclab.set_temporary_feature(root, "tmp_c04", twin["tmp_c04"])
+            self.data["tmp_c04"] = arr.copy()
+            self.twin = (twin, arr.copy())
+            ctx.probe("temporary_feature_initialised_from_other_dataset")
         self.levels = [root]
         self.excl = [set()]          # per level: root ids manually excluded by its owner (level 0 unused)
         self.synced = True           # every level consistent with its ancestors
@@ -377,6 +400,13 @@ class World:
                 ctx.violation("C04.manual", f"level {j}: manual flags of events {bad} (root ids {rid[bad].tolist()}) are {man[bad].tolist()}, "
                                             f"expected {exp[bad].tolist()}; excluded root ids of this level: {sorted(self.excl[j])[:12]}",
                               sig={"level": min(j, 2), "came_back": bool(back), "stale_manual": self.stale_manual})
+        if self.twin is not None:
+            # the other measurement keeps what was assigned to it
+            ctx.checked()
+            if not np.array_equal(np.asarray(self.twin[0]["tmp_c04"][:]), self.twin[1], equal_nan=True):
+                ctx.violation("C04.temp.other_dataset", "the temporary feature of another dataset (from which this root's feature was "
+                                                        "initialised) changed when the feature was assigned on a child here",
+                              sig={"feat": "tmp_c04"})
         ctx.state(self.depth, self.edited, hidden_now > 0, self.cached)
         ctx.log("sched", f"refresh {why}", seeds.short_hash([np.array(l.filter.all) for l in self.levels]))
         self.synced = True
